@@ -177,8 +177,12 @@ fn conformance(args: &Args) -> ! {
         let (mut st, _) = varlink::varlink_connect(addr).map_err(|e| format!("{:?}", e.kind()))?;
         let (mut r, mut w) = st.split().map_err(|e| format!("{:?}", e.kind()))?;
         for c in chunks {
-            w.write_all(c).map_err(|e| e.to_string())?;
-            w.flush().map_err(|e| e.to_string())?;
+            // the server may already have closed the connection at an earlier request of the stream (a reply the
+            // property allows): a later chunk then meets EPIPE / ECONNRESET, which says nothing about the replies
+            // that were sent - they are still read below
+            if w.write_all(c).and_then(|_| w.flush()).is_err() {
+                break;
+            }
         }
         // half-close: the server sees EOF after the last byte
         unsafe {
